@@ -64,7 +64,10 @@ def check(prop, tier, runs_override=None):
     coverage["seeds"] = {"VERIF_SEED": seed, "first_run_index": 0, "last_run_index": len(results) - 1}
     n_viol = sum(len(r.get("violations", [])) for r in results)
     coverage["violating_runs"] = sum(1 for r in results if r.get("violations"))
-    coverage["discarded_runs"] = sum(n for k, n in coverage.get("fault_kinds_fired", {}).items() if k.startswith("discard."))
+    died = sum(n for k, n in coverage.get("fault_kinds_fired", {}).items() if k.startswith("discard."))
+    # not a measure of work done (and seed dependent): kept out of the top-level counts
+    coverage["discards"] = {"runs_or_steps_not_judged": died, "steps": coverage.pop("discarded_steps", 0),
+                            "reasons": "exact stub solver hit its node cap, model outside the stub's class, per-run time limit"}
     runner.write_evidence(prop, tier, seed, eng.LEVEL, coverage, wall, n_viol, eng.ASSUMPTIONS)
     print("runs=%d evaluations=%d distinct_nontrivial=%d wall=%.1fs violations=%d new=%d" % (
         len(results), coverage["evaluations"], coverage["distinct_nontrivial"], wall, n_viol, new))
@@ -77,10 +80,8 @@ def check(prop, tier, runs_override=None):
     problems = eng.harness_problems(coverage) if hasattr(eng, "harness_problems") else []
     if problems:
         return harness_error("; ".join(problems))
-    if coverage.get("discarded_steps", 0) > 0.05 * max(1, coverage["evaluations"]):
-        return harness_error("too many discarded steps: %d of %d" % (coverage["discarded_steps"], coverage["evaluations"]))
-    died = sum(n for k, n in coverage.get("fault_kinds_fired", {}).items() if k.startswith("discard."))
-    coverage["discarded_runs"] = died
+    if coverage["discards"]["steps"] > 0.05 * max(1, coverage["evaluations"]):
+        return harness_error("too many discarded steps: %d of %d" % (coverage["discards"]["steps"], coverage["evaluations"]))
     if died > 0.05 * max(1, len(results)):
         return harness_error("too many discarded runs (node cap, unsupported model or per-run time limit): %d of %d" % (died, len(results)))
     return 0
